@@ -1,5 +1,5 @@
 /*UNIT
-{"props": ["C06", "C02"], "src": ["lib/ipcs.c"], "mode": "plain", "kind": "proved",
+{"props": ["C06", "C02", "C03"], "src": ["lib/ipcs.c"], "mode": "plain", "kind": "proved",
  "functions": ["qb_ipcs_dispatch_connection_request", "_request_q_len_get (inlined)", "_process_request_ (inlined)", "resend_event_notifications (inlined)", "qb_ipcs_disconnect (inlined)", "qb_ipcs_connection_unref (inlined)"],
  "stubs": ["transport table funcs.* (fresh arbitrary result per call)", "service callbacks (recorded)", "poll handlers (recorded)", "qb_ipc_us_recv / qb_ipc_us_send on the setup socket (all-or-error contract, buffer bound asserted)", "remove_tempdir (counted)"],
  "drops": ["qb_util_log/qb_util_perror diagnostics compiled out (stubs/nolog.h)"],
